@@ -206,6 +206,7 @@ class Run:
         self.states = set()
         self.evals = 0
         self.viol = {}
+        self._keys = {}
         self.cover = collections.Counter()
         self.outcomes = set()
         self.samples = []
@@ -214,10 +215,17 @@ class Run:
         self.notes = []
         self.exhaustive = True
 
-    def violation(self, rule, detail, path):
+    def violation(self, rule, detail, path, key=None):
+        """first (or, with `key`, the smallest-key) counterexample per rule is the one reported"""
         v = self.viol.get(rule)
-        if v is None: self.viol[rule] = dict(rule=rule, detail=detail, path=path, count=1)
-        else: v["count"] += 1
+        if v is None:
+            self.viol[rule] = dict(rule=rule, detail=detail, path=path, count=1)
+            self._keys[rule] = key
+        else:
+            v["count"] += 1
+            if key is not None and self._keys[rule] is not None and key < self._keys[rule]:
+                v["detail"], v["path"] = detail, path
+                self._keys[rule] = key
 
     def validate(self, model, log, max_cycles=None):
         """replay a Cursor log (recorded from reset) in amaranth.sim"""
